@@ -37,6 +37,7 @@ class RunResult:
         self.results: List[List[tuple]] = [[] for _ in range(n)]   # per caller, per op: ("ok", value) | ("exc", type, msg) | ("stall",)
         self.steps: List[Tuple[int, str]] = []                     # per schedule entry: (caller, "acquire"|"W"|"R") or (caller, "-done"|"-blocked") when skipped
         self.lock_events: List[Tuple[str, int, int]] = []          # ("acq"|"rel", caller, op index)
+        self.orphans: List[dict] = []                              # operations that ended for their caller while part of them is still live
         self.cancelled = set()                                     # (caller, op index) abandoned by a cancel-while-waiting event
         self.deadlock = False
         self.all_done = False
@@ -58,20 +59,39 @@ class Controller:
         self.nact = [0] * n
         self.lock: Optional["SchedLock"] = None
         self.res = RunResult(n)
+        self.parked_for: dict = {}
 
     # ---- caller side (any thread working for the caller that is currently released)
     def pause(self, kind: str) -> int:
         c = self.running
         if c is None:
             raise RuntimeError("yield point reached while no caller is released")
+        key = (c, self.opidx[c])
         with self.cv:
             self.state[c] = ("at", kind)
             self.running = None
+            self.parked_for[key] = self.parked_for.get(key, []) + [kind]
             self.cv.notify_all()
-        self.go[c].acquire()
+        try:
+            self.go[c].acquire()
+        finally:
+            with self.cv:
+                self.parked_for[key].remove(kind)
         if self.abort:
             raise SchedAbort()
         return c
+
+    def operation_ended(self, c: int, k: int, outcome: tuple) -> bool:
+        """see AsyncController.operation_ended"""
+        left = []
+        if self.lock is not None and self.lock.locked() and self.lock.owner_op == (c, k):
+            left.append("it still holds the channel lock")
+        for kind in list(self.parked_for.get((c, k), [])):
+            left.append({"acquire": "a thread of it is still queued on the channel lock", "R": "a thread of it is still about to call transport.read()",
+                         "W": "a thread of it is still about to call transport.write()"}.get(kind, kind))
+        if left:
+            self.res.orphans.append({"op": [c, k], "outcome": [str(x) for x in outcome], "left": left})
+        return bool(left)
 
     def current(self) -> int:
         c = self.running
@@ -136,6 +156,7 @@ class SchedLock:
         self.real = threading.Lock()
         self.holders = 0
         self.owner: Optional[int] = None
+        self.owner_op: Optional[Tuple[int, int]] = None
         ctrl.lock = self
 
     def acquire(self, blocking: bool = True, timeout: float = -1) -> bool:
@@ -144,6 +165,7 @@ class SchedLock:
             raise RuntimeError("controller released a caller although the lock is taken")
         self.holders += 1
         self.owner = c
+        self.owner_op = (c, self.ctrl.opidx[c])
         self.ctrl.res.max_holders = max(self.ctrl.res.max_holders, self.holders)
         self.ctrl.res.lock_events.append(("acq", c, self.ctrl.opidx[c]))
         return True
@@ -152,6 +174,7 @@ class SchedLock:
         c = self.owner if self.owner is not None else -1
         self.holders -= 1
         self.owner = None
+        self.owner_op = None
         self.ctrl.res.lock_events.append(("rel", c, self.ctrl.opidx[c] if c >= 0 else -1))
         self.real.release()
 
@@ -225,6 +248,8 @@ def run_threads(conn, transport: SchedTransport, programs: List[List[Callable[[A
                     break
                 except Exception as e:  # noqa: BLE001 — the outcome of the operation is data here
                     res.results[c].append(("exc", type(e).__name__, str(e)))
+                if ctrl.operation_ended(c, k, res.results[c][-1]):
+                    break
         except SchedAbort:
             return
         except BaseException as e:  # noqa: BLE001
@@ -236,6 +261,8 @@ def run_threads(conn, transport: SchedTransport, programs: List[List[Callable[[A
         for c in range(n):
             threads.append(ctrl.launch(c, caller_main))
         for c in schedule:
+            if res.orphans:
+                break
             if c >= 10:
                 raise ValueError("cancel events exist for asyncio tasks only (a thread cannot be cancelled)")
             ctrl.step(c)
@@ -267,6 +294,7 @@ class AsyncController:
         self.res = RunResult(n)
         self.cancel_req = [False] * n
         self.tasks: List[Any] = [None] * n
+        self.parked_for: dict = {}
 
     async def pause(self, kind: str) -> int:
         c = self.running
@@ -275,11 +303,30 @@ class AsyncController:
         self.state[c] = ("at", kind)
         self.running = None
         self.parked.set()
-        await self.go[c].wait()
+        key = (c, self.opidx[c])
+        self.parked_for[key] = self.parked_for.get(key, []) + [kind]     # who is suspended here works for operation `key`
+        try:
+            await self.go[c].wait()
+        finally:
+            self.parked_for[key].remove(kind)
         self.go[c].clear()
         if self.abort:
             raise SchedAbort()
         return c
+
+    def operation_ended(self, c: int, k: int, outcome: tuple) -> bool:
+        """called by the caller the moment operation (c, k) has returned / raised to it: nothing of that operation may be left —
+        it must not hold the lock and nobody may be suspended at a yield point on its behalf.  True = something is left
+        (recorded in res.orphans; the run stops: from here on the run is not a function of the schedule any more)"""
+        left = []
+        if self.lock is not None and self.lock.locked() and self.lock.owner_op == (c, k):
+            left.append("it still holds the channel lock")
+        for kind in self.parked_for.get((c, k), []):
+            left.append({"acquire": "a coroutine of it is still queued on the channel lock", "R": "a coroutine of it is still suspended in transport.read()",
+                         "W": "a thread of it is still about to call transport.write()"}.get(kind, kind))
+        if left:
+            self.res.orphans.append({"op": [c, k], "outcome": [str(x) for x in outcome], "left": left})
+        return bool(left)
 
     def current(self) -> int:
         c = self.running
@@ -356,6 +403,7 @@ class AsyncSchedLock:
         self.real = asyncio.Lock()
         self.holders = 0
         self.owner: Optional[int] = None
+        self.owner_op: Optional[Tuple[int, int]] = None
         ctrl.lock = self
 
     async def acquire(self) -> bool:
@@ -365,6 +413,7 @@ class AsyncSchedLock:
         await self.real.acquire()
         self.holders += 1
         self.owner = c
+        self.owner_op = (c, self.ctrl.opidx[c])
         self.ctrl.res.max_holders = max(self.ctrl.res.max_holders, self.holders)
         self.ctrl.res.lock_events.append(("acq", c, self.ctrl.opidx[c]))
         return True
@@ -373,6 +422,7 @@ class AsyncSchedLock:
         c = self.owner if self.owner is not None else -1
         self.holders -= 1
         self.owner = None
+        self.owner_op = None
         self.ctrl.res.lock_events.append(("rel", c, self.ctrl.opidx[c] if c >= 0 else -1))
         self.real.release()
 
@@ -450,6 +500,8 @@ async def run_tasks(conn, transport: AsyncSchedTransport, programs, schedule: Li
                     break
                 except Exception as e:  # noqa: BLE001
                     res.results[c].append(("exc", type(e).__name__, str(e)))
+                if ctrl.operation_ended(c, k, res.results[c][-1]):
+                    break
         except SchedAbort:
             return
         except asyncio.CancelledError:
@@ -459,20 +511,34 @@ async def run_tasks(conn, transport: AsyncSchedTransport, programs, schedule: Li
         ctrl.finished(c)
 
     tasks = []
+    base_tasks = set(asyncio.all_tasks())
     try:
         for c in range(n):
             tasks.append(await ctrl.launch(c, caller_main))
-        for e in schedule:
-            if e >= 10:
-                await ctrl.cancel(e - 10)
+        try:
+            for e in schedule:
+                if res.orphans:
+                    break
+                if e >= 10:
+                    await ctrl.cancel(e - 10)
+                else:
+                    await ctrl.step(e)
+        except HarnessStuck:
+            # a released task never came back.  If the lock is held by an operation that has already ended for its caller, that is
+            # not rig trouble: it is what C19 excludes.  Anything else stays a harness problem.
+            lk = ctrl.lock
+            if lk is not None and lk.locked() and lk.owner_op is not None and len(res.results[lk.owner_op[0]]) > lk.owner_op[1]:
+                res.orphans.append({"op": list(lk.owner_op), "outcome": [str(x) for x in res.results[lk.owner_op[0]][lk.owner_op[1]]],
+                                    "left": ["it still holds the channel lock and a caller waiting for it never got it"]})
             else:
-                await ctrl.step(e)
+                raise
         res.all_done = all(s == "done" for s in ctrl.state)
         res.deadlock = (not res.all_done) and not any(ctrl.enabled(c) for c in range(n))
         res.lock_free_at_end = (ctrl.lock is None) or (not ctrl.lock.locked())
     finally:
         ctrl.teardown()
-        for t in tasks:
+        stray = [t for t in asyncio.all_tasks() if t is not asyncio.current_task() and t not in base_tasks]
+        for t in list(tasks) + stray:
             try:
                 await asyncio.wait_for(t, 5)
             except BaseException:  # noqa: BLE001
